@@ -14,6 +14,32 @@ import traceback
 sys.path.insert(0, os.path.dirname(os.path.dirname(os.path.abspath(__file__))))
 
 
+def replay(pid, mod, path):
+    """Re-run the native side of a recorded violation against the current tree: prints the failed obligation, the
+    solver's model and the native search result; exit 1 if a failing native input is (still) found, else 0."""
+    import json
+
+    class R:
+        pass
+    doc = json.load(open(path))
+    r = R()
+    r.name = doc.get("obligation") or doc.get("name", "")
+    r.label = doc.get("unit_label") or doc.get("label", "")
+    r.model = doc.get("model")
+    r.info = doc.get("info")
+    print(f"property {pid}: obligation {r.name} [{r.label}]")
+    print("  site:", doc.get("site"), " solver:", doc.get("solver_output"))
+    if doc.get("model"):
+        print("  model:", json.dumps(doc["model"])[:800])
+    if hasattr(mod, "native_replay"):
+        res = mod.native_replay(r)
+    else:
+        from props._mainbased import native_replay_for
+        res = native_replay_for(pid)(r)
+    print("  native replay:", json.dumps(res, default=str)[:1500])
+    return 1 if res and res.get("confirmed") else 0
+
+
 def main():
     ap = argparse.ArgumentParser()
     ap.add_argument("pid")
@@ -31,7 +57,7 @@ def main():
         sys.exit(3)
     try:
         if a.replay:
-            sys.exit(mod.replay(a.replay))
+            sys.exit(replay(a.pid, mod, a.replay))
         sys.exit(mod.check(a.tier, seed))
     except SystemExit:
         raise
